@@ -6,6 +6,11 @@ package wallet
 // REAL wallet.Service built with New(...) over a filesystem wallet store in a scratch directory that
 // holds real nd wallets and accounts named per the model's universe; REAL
 // validatorsmanager/standard.Service over a scripted beacon node (c13support.Node).
+//
+// ONE service (and one validators manager) per scenario: the scenario is a history of refreshes and
+// queries on them (c13support.RunHistory), with what the store offers changing from refresh to refresh
+// (account files are hidden from / shown to the store), the refresh job held between its two parts and
+// queries held inside the validators manager's lookup while the refresh job runs.
 
 import (
 	"context"
@@ -33,60 +38,73 @@ func TestVerifC13Wallet(t *testing.T) {
 	ct := verifsupport.NewChainTime(32, 12*time.Second)
 
 	for _, sc := range scenarios {
+		if len(sc.Steps) == 0 || sc.Steps[0].Ev != "Reset" {
+			t.Fatalf("scenario %d does not start with Reset", sc.Sc)
+		}
+		st := sc.Steps[0]
+		if st.Mgr != "wallet" {
+			t.Fatalf("scenario %d is for manager %q", sc.Sc, st.Mgr)
+		}
+		if u == nil {
+			u = c13support.BuildUniverse(ctx, t, store, st.Wallets)
+		} else if !u.Same(st.Wallets) {
+			t.Fatalf("scenario %d uses another universe of names", sc.Sc)
+		}
+		node := c13support.NewNode(u)
+		vm := &c13support.GatedVM{Real: c13support.NewValidatorsManager(ctx, t, node)}
+		paths := st.Paths
 		var s *Service
-		var node *c13support.Node
-		var paths []string
-		for _, st := range sc.Steps {
-			switch st.Ev {
-			case "Reset":
-				if st.Mgr != "wallet" {
-					t.Fatalf("scenario %d is for manager %q", sc.Sc, st.Mgr)
+		scID := sc.Sc
+		in := &c13support.Instances{
+			U:    u,
+			Node: node,
+			VM:   vm,
+			Offer: func(offer []c13support.Name) {
+				if err := u.ShowOnly(dir, offer); err != nil {
+					t.Fatalf("scenario %d: %v", scID, err)
 				}
-				if u == nil {
-					u = c13support.BuildUniverse(ctx, t, store, st.Wallets)
-				} else if !u.Same(st.Wallets) {
-					t.Fatalf("scenario %d uses another universe of names", sc.Sc)
-				}
-				node = c13support.NewNode(u)
-				paths = st.Paths
-				s = nil
-				tr.Emit(verifsupport.Ev{"sc": sc.Sc, "ev": "Reset", "mgr": st.Mgr, "cfg": st.Cfg, "paths": st.Paths})
-			case "Refresh":
-				node.Script(st.Mode, st.Recs)
-				if s == nil {
-					// the constructor performs the first refresh (accounts, then validators)
-					var err error
-					s, err = New(ctx,
-						WithLogLevel(zerolog.Disabled),
-						WithMonitor(nullmetrics.New()),
-						WithProcessConcurrency(4),
-						WithLocations([]string{dir}),
-						WithAccountPaths(paths),
-						WithPassphrases([][]byte{[]byte("wrong"), []byte(c13support.Passphrase)}),
-						WithValidatorsManager(c13support.NewValidatorsManager(ctx, t, node)),
-						WithSpecProvider(mock.NewSpecProvider()),
-						WithFarFutureEpochProvider(mock.NewFarFutureEpochProvider(c13support.FarFutureEpoch)),
-						WithDomainProvider(mock.NewDomainProvider()),
-						WithCurrentEpochProvider(ct),
-					)
-					if err != nil {
-						t.Fatalf("scenario %d: wallet New: %v", sc.Sc, err)
-					}
-				} else {
+			},
+			Refresh: func(ctx context.Context) {
+				if s != nil {
 					s.Refresh(ctx)
+					return
+				}
+				// the constructor performs the first refresh (accounts, then validators)
+				var err error
+				s, err = New(ctx,
+					WithLogLevel(zerolog.Disabled),
+					WithMonitor(nullmetrics.New()),
+					WithProcessConcurrency(4),
+					WithLocations([]string{dir}),
+					WithAccountPaths(paths),
+					WithPassphrases([][]byte{[]byte("wrong"), []byte(c13support.Passphrase)}),
+					WithValidatorsManager(vm),
+					WithSpecProvider(mock.NewSpecProvider()),
+					WithFarFutureEpochProvider(mock.NewFarFutureEpochProvider(c13support.FarFutureEpoch)),
+					WithDomainProvider(mock.NewDomainProvider()),
+					WithCurrentEpochProvider(ct),
+				)
+				if err != nil {
+					// (not on the test's goroutine: the steps that need the service end the test)
+					t.Errorf("scenario %d: wallet New: %v", scID, err)
+				}
+			},
+			Manager: func() c13support.Manager {
+				if s == nil {
+					return nil
+				}
+				return s
+			},
+			Known: func() []c13support.Name {
+				if s == nil {
+					return []c13support.Name{}
 				}
 				s.mutex.RLock()
-				known := u.Known(s.accounts)
-				s.mutex.RUnlock()
-				tr.Emit(c13support.RefreshEvent(sc.Sc, st, known, u.Table(ctx, s.validatorsManager), node.Calls))
-			case "Query":
-				if s == nil {
-					t.Fatalf("scenario %d queries before the first refresh", sc.Sc)
-				}
-				c13support.Query(ctx, t, tr, u, sc.Sc, st, s)
-			default:
-				t.Fatalf("unknown step %q", st.Ev)
-			}
+				defer s.mutex.RUnlock()
+				return u.Known(s.accounts)
+			},
 		}
+		tr.Emit(verifsupport.Ev{"sc": sc.Sc, "ev": "Reset", "mgr": st.Mgr, "cfg": st.Cfg, "paths": st.Paths})
+		c13support.RunHistory(ctx, t, tr, sc.Sc, in, sc.Steps[1:])
 	}
 }
